@@ -211,7 +211,7 @@ META("C11",
           "cbor_copy__child). In the map loop body cbor_map_add is represented by the storage-free part of its contract. "
           "'serializes to the same bytes' follows from shape equality and C03 (meta). Failed obligations in this layer are "
           "replayed by a native sweep (replay/copy_oracle.c: 328k decoded trees copied, compared, released, every allocation refused).",
-     trusted=[A1, A2], uncovered=["for-loop rule over the extracted regions of cbor_copy (A2)", "cbor_build_string (strlen)"],
+     trusted=[A1, A2], uncovered=["for-loop rule over the extracted regions of cbor_copy (A2)", "cbor_build_string is proved with strlen replaced by an ASSUMED contract (returns the index of the first NUL)"],
      meta=["tree induction (A1)", "loop rule (A2)"])
 
 META("C12",
@@ -683,6 +683,13 @@ P(name="op_build_stringn", replay="copy_oracle", props=dict(BUILDSTR_PROPS, C16=
   defines=["H_BUILD_STR", "CALL=cbor_build_stringn((const char*)src,in_len)"], enforce="cbor_build_stringn",
   replace=["cbor_new_definite_string", "_cbor_unicode_codepoint_count/_cbor_unicode_codepoint_count__plain"], unwind=6,
   must_exist=[r"cbor_build_stringn\.postcondition\.4"], min_covers=3, cost=20)
+
+# cbor_build_string: the same facts for the NUL-terminated entry point, strlen replaced by its ASSUMED contract (first NUL)
+P(name="op_build_string", props=dict({"C11": FUNC, "C06": FUNC + FRAME, "C13": FUNC + FRAME}), lib=ITEMLIB, stubs=ITEM_STUBS + ["stubs/copy_ghost.c"],
+  contracts=OPS_CONTRACTS + ["contracts/copy.h"], harness="harness/ops.c",
+  defines=["H_BUILD_CSTR"], enforce="cbor_build_string",
+  replace=["cbor_new_definite_string", "_cbor_unicode_codepoint_count/_cbor_unicode_codepoint_count__plain", "strlen"], unwind=6,
+  must_exist=[r"cbor_build_string\.postcondition\.4"], min_covers=4, cost=20)
 
 # ------------------------------------------------------------------------------------------------
 # L1 decoding stack with a symbolic nesting limit (C19)
